@@ -193,6 +193,10 @@ func (s *seatRun) apply(op SeatOp) {
 			if st.Dealer >= 0 && m.Dealer() == nil {
 				s.lostDealer = st.Dealer
 			}
+			// the document belongs to the caller again: whatever it does with it must not reach the manager
+			for _, x := range st.Seats {
+				x.Player, x.IsActive, x.IsReserved = "ghost-of-the-restore-document", true, false
+			}
 		case 'Z':
 			m.Reset()
 			s.joined = 0
